@@ -130,6 +130,16 @@ def rule_faults():
     f("empty-any-order", append({"$and_any_order": []}))
     f("not-zero-args", append({"$not": []}))
     f("not-two-args", append({"$not": ["zz", "yy"]}))
+    # the same group faults in OPERAND position and inside a $deref field
+    f("operand-not-two-args", append({"zz": [{"$not": ["%rax", "%rbx"]}]}))
+    f("operand-not-zero-args", append({"zz": ["%rax", {"$not": []}]}))
+    f("operand-empty-or", append({"zz": [{"$or": []}]}))
+    f("operand-empty-and", append({"zz": ["%rax", {"$and": []}]}))
+    f("operand-empty-any-order", append({"zz": [{"$and_any_order": []}]}))
+    f("deref-field-empty-or", append({"zz": [{"$deref": {"main_reg": [{"$or": []}]}}]}))
+    f("deref-field-not-two-args", append({"zz": [{"$deref": {"main_reg": [{"$not": ["%rax", "%rbx"]}]}}]}))
+    f("nested-empty-or-inside-and", append({"$and": ["zz", {"$or": []}]}))
+    f("nested-not-two-args-inside-or", append({"$or": ["zz", {"$not": ["aa", "bb"]}]}))
     f("deref-without-main-reg", append({"zz": [{"$deref": {"constant_offset": "0x8"}}]}))
     f("deref-without-main-reg-index-only", append({"zz": [{"$deref": {"register_multiplier": "%rax", "constant_multiplier": 8, "constant_offset": "0x0"}}]}))
     f("deref-without-main-reg-index", append({"zz": ["%rbx", {"$deref": {"register_multiplier": "rcx"}}]}))
@@ -147,6 +157,13 @@ def rule_faults():
     f("times-non-numeric-sibling", lambda doc: _first_item_times(doc, "many", True))
     f("undefined-macro-with-definitions", lambda doc: {**copy.deepcopy(doc), "macros": (doc.get("macros") or []) + [{"name": "@defd", "pattern": "ret"}],
                                                        "pattern": doc["pattern"] + ["@undefined_thing"]})
+    # an undefined name that only appears once a defined macro has been expanded (value/list position and key position)
+    f("undefined-macro-inside-macro-body", lambda doc: {**copy.deepcopy(doc), "macros": (doc.get("macros") or []) + [{"name": "@wrap_u", "pattern": [{"$and": ["ret", "@undefined_thing"]}]}],
+                                                        "pattern": doc["pattern"] + ["@wrap_u"]})
+    f("undefined-macro-key-inside-macro-body", lambda doc: {**copy.deepcopy(doc), "macros": (doc.get("macros") or []) + [{"name": "@wrap_k", "pattern": [{"@undefined_thing": {"times": 2}}]}],
+                                                            "pattern": doc["pattern"] + ["@wrap_k"]})
+    f("undefined-macro-inside-first-listed-macro-body", lambda doc: {**copy.deepcopy(doc), "macros": [{"name": "@wrap_f", "pattern": [{"zz": ["%rax", "@undefined_thing"]}]}] + (doc.get("macros") or []),
+                                                                     "pattern": ["@wrap_f"] + doc["pattern"]})
     f("undefined-macro-no-definitions", lambda doc: {**{k: v for k, v in copy.deepcopy(doc).items() if k != "macros"},
                                                      "pattern": [p for p in doc["pattern"] if not (isinstance(p, str) and p.startswith("@"))] + ["@undefined_thing"]})
     f("macro-name-without-at", lambda doc: {**copy.deepcopy(doc), "macros": (doc.get("macros") or []) + [{"name": "plain", "pattern": "ret"}]})
